@@ -1,0 +1,8 @@
+//go:build !verif
+
+package eval
+
+// Hooks for the verification harness in /verif (build tag "verif"); no-ops in a normal build.
+
+func verifCacheOff() bool { return false }
+func verifCacheHit()      {}
